@@ -1,0 +1,79 @@
+//go:build verif
+
+package cache
+
+import "fmt"
+
+// Verification hooks, compiled only with the "verif" build tag.
+
+// VerifStoreOf returns the store configured in c, so that a monitor can wrap
+// it before handing it back to WithStore.
+func VerifStoreOf[K comparable, V any](c Config[K, V]) Store[K, V] { return c.store }
+
+// A VerifEntry is one entry of an LRU store as seen by VerifLRUEntries.
+type VerifEntry[K comparable, V any] struct {
+	Key        K
+	Value      V
+	LastAccess int64
+	Pos        int // offset in the access heap
+}
+
+// VerifLRUEntries checks the internal consistency of an LRU store (the key
+// index and the access heap describe the same entries at the same offsets)
+// and returns its entries in heap order. It reports ok == false if s is not
+// the store created by LRU. The caller must ensure s is not in use.
+func VerifLRUEntries[K comparable, V any](s Store[K, V]) (_ []VerifEntry[K, V], ok bool, _ error) {
+	c, ok := s.(*lruStore[K, V])
+	if !ok {
+		return nil, false, nil
+	}
+	if len(c.present) != c.access.Len() {
+		return nil, true, fmt.Errorf("lru: %d keys indexed, %d heap entries", len(c.present), c.access.Len())
+	}
+	out := make([]VerifEntry[K, V], 0, c.access.Len())
+	for i := 0; i < c.access.Len(); i++ {
+		e, _ := c.access.Peek(i)
+		if pos, ok := c.present[e.key]; !ok || pos != i {
+			return nil, true, fmt.Errorf("lru: key %v is at heap offset %d but indexed at %d (present=%v)", e.key, i, pos, ok)
+		}
+		if e.lastAccess > c.clock {
+			return nil, true, fmt.Errorf("lru: key %v has access time %d beyond clock %d", e.key, e.lastAccess, c.clock)
+		}
+		out = append(out, VerifEntry[K, V]{Key: e.key, Value: e.value, LastAccess: e.lastAccess, Pos: i})
+	}
+	return out, true, nil
+}
+
+// VerifCheck checks, while holding the cache lock, that the accounting fields
+// agree with the contents of the store: size is the sum of the sizes of the
+// stored values and does not exceed the limit, and count is their number.
+// If lru is non-nil it is used instead of the cache's own store to enumerate
+// the entries (for a cache whose LRU store is wrapped by a monitoring proxy).
+// It returns the size, count and limit it saw.
+func (c *Cache[K, V]) VerifCheck(lru Store[K, V]) (size int64, count int, limit int64, err error) {
+	c.μ.Lock()
+	defer c.μ.Unlock()
+	size, count, limit = c.size, c.count, c.limit
+	if size > limit {
+		return size, count, limit, fmt.Errorf("cache: size %d exceeds limit %d", size, limit)
+	}
+	if size < 0 || count < 0 {
+		return size, count, limit, fmt.Errorf("cache: negative size %d or count %d", size, count)
+	}
+	if lru == nil {
+		lru = c.store
+	}
+	es, ok, err := VerifLRUEntries(lru)
+	if err != nil {
+		return size, count, limit, err
+	} else if ok {
+		var sum int64
+		for _, e := range es {
+			sum += c.sizeOf(e.Value)
+		}
+		if sum != size || len(es) != count {
+			return size, count, limit, fmt.Errorf("cache: size=%d count=%d but store holds %d entries of total size %d", size, count, len(es), sum)
+		}
+	}
+	return size, count, limit, nil
+}
